@@ -249,11 +249,17 @@ func RecCopyFrom(suffix string, diags diag.Diagnostics, v attr.Value, ptr interf
 	Log = append(Log, HookCall{Hook: "CopyFrom", Suffix: suffix, Value: v, Ptr: ptr, DiagsNil: diags == nil})
 }
 
+// NilResults makes the CopyTo hooks return a nil attr.Value (set by the C17 monitor for single calls).
+var NilResults bool
+
 // RecCopyTo is called by the generated CopyTo<S> shims.
 func RecCopyTo(suffix string, diags diag.Diagnostics, field interface{}, t attr.Type, cur attr.Value) attr.Value {
 	seq++
 	// deterministic in the arguments, so that repeated conversions are comparable
-	ret := types.String{Value: fmt.Sprintf("hook:%s:%v", suffix, deref(field))}
+	var ret attr.Value = types.String{Value: fmt.Sprintf("hook:%s:%v", suffix, deref(field))}
+	if NilResults {
+		ret = nil // a hook may return nil; what it returns is what gets stored
+	}
 	Log = append(Log, HookCall{Hook: "CopyTo", Suffix: suffix, Field: field, Type: t, Current: cur, Returned: ret, DiagsNil: diags == nil})
 	return ret
 }
